@@ -309,7 +309,7 @@ def small_scope(name, level, point=False, allow_zero_cap=True):
 def strategy(prop, tier, allow_zero_cap=True):
     types = TYPES_FOR[prop]
     if tier == "quick":
-        base = gen.box_case(types=types, max_n=4, max_w=3, allow_zero_cap=allow_zero_cap)
+        base = gen.box_case(types=types, max_n=5, max_w=3, allow_zero_cap=allow_zero_cap)
         pts = gen.box_case(types=types, max_n=5, max_w=0, point=True, allow_zero_cap=allow_zero_cap)
     else:
         base = gen.box_case(types=types, max_n=6, max_w=4, lo=-4, hi=5, allow_zero_cap=allow_zero_cap, big=True)
@@ -339,8 +339,8 @@ FUZZ_RUNS = {"quick": 6000, "thorough": 150000}
 
 def jobs(prop, tier):
     return [
-        {"name": "exh", "mode": "I", "shards": 16},
-        {"name": "rand", "mode": "I", "shards": 16},
+        {"name": "exh", "mode": "I", "shards": 16, "case_timeout": 120},
+        {"name": "rand", "mode": "I", "shards": 16, "case_timeout": 120},
         {"name": "fuzz", "mode": "I", "shards": 2 if tier == "quick" else 8},
         # the same oracles on the compiled propagators (direct calls of the jitted functions)
         {"name": "rand-J", "mode": "J", "shards": 2 if tier == "quick" else 8},
@@ -410,6 +410,9 @@ def run(prop, job, shard, nshards, seed, tier):
     rec = Recorder()
     level = SCOPE_LEVEL[tier]
     if job["name"] in ("exh", "exh-J"):
+        from vlib.run import journal
+
+        jr = journal()
         k = 0
         nontrivial = 0
         passes = [False, True] if prop == "C06" else [False]
@@ -419,6 +422,7 @@ def run(prop, job, shard, nshards, seed, tier):
                     k += 1
                     if k % nshards != shard:
                         continue
+                    jr.begin(case)
                     v = check(case)
                     rec.evaluations += 1
                     for t in v.tags:
@@ -432,6 +436,7 @@ def run(prop, job, shard, nshards, seed, tier):
                         key = (name, v.msg.split(" ")[0])
                         if not any(f.get("_key") == repr(key) for f in rec.failures):
                             rec.failures.append({"case": case, "msg": v.msg, "_key": repr(key)})
+        jr.end()
         res = rec.result()
         res["exhaustive_nontrivial"] = nontrivial if job["name"] == "exh" else 0  # the same cases in both modes: counted once
         res["exhaustive_scope"] = "level %d" % level
